@@ -912,7 +912,7 @@ func (e *Exec) tryUnmarshalGet(s *State, g GetResult, want types.Type) (v Val, o
 	defer func() {
 		if r := recover(); r != nil {
 			msg := fmt.Sprint(r)
-			if strings.Contains(msg, "iteVal") {
+			if _, isMF := r.(mergeFail); isMF || strings.Contains(msg, "iteVal") {
 				v, ok = nil, false
 				return
 			}
